@@ -116,7 +116,19 @@
    instance "quantity zero, error zero" of the cell invariant: a cell without a booking of a
    non-zero quantity receives no value).
 
-   NOT PROVED (decided on every run by evaluating mtm_row_mapped / within_bound on the binary's output
+   REPORTS RESTRICTED BY --account / --commodity (Spec/ValuationWhereSpec.v, Proofs/MarkToMarketWhere.v; last
+   part of this file): the filters are the Where predicate of the report's query -- they select what
+   the report adds up, not what ComputePrices and Valuate see; prices of commodities that are not
+   shown are still needed and used.  held_where = the held commodities c with cfg_where cfg a c;
+   market_value_where / mtm_expected_where / step_bound_where / mtm_row_where / mtm_row_where_mapped:
+   the sums above over held_where, for the accounts that pass --account (sources_of).
+   C03_windowed_mapped_where and C03_model_meets_spec_where_mapped: the window and the verdict of the
+   runtime check for EVERY configuration -- no hypothesis on mapping, remap or filters;
+   C03_model_meets_spec_where for an account shown as itself; C03_filtered_out_row_zero;
+   C03_where_unfiltered, C03_where_mapped_unfiltered: without filters the specification is the one
+   above.
+
+   NOT PROVED (decided on every run by evaluating mtm_row_where_mapped / within_bound on the binary's output
    and by the byte-exact correspondence of the model):
    * the printed row: that the renderer's collapsed line of a valued row is the sum over the
      commodity keys of the node and the cumulative presentation over the columns (C02_row_cumulative
